@@ -108,6 +108,10 @@ func (e *Env) modelDecodeOne(l *facts.Level, rule string) *decodeOneModel {
 		c.Undecided(rule, who, pos, err.Error())
 		return m
 	}
+	leaves, badRep := e.canonNames(l, leaves)
+	for _, why := range badRep {
+		c.Undecided(rule, who+" names representation", pos, why)
+	}
 	m.Leaves = leaves
 	str := &ir.Term{Op: ir.OParam, N: 1}
 	// the tokeniser: strings.Split(token, ":") with the shape test len == 2 && both parts non-empty, or
@@ -587,6 +591,9 @@ func (e *Env) decodeCallAllowed(t *ir.Term, l *facts.Level) bool {
 		fn, _ := t.Obj.(*types.Func)
 		if fn == nil {
 			return false
+		}
+		if e.keyFns[fn] {
+			return true // the verified name-to-bit function of a bit-set names field (namesrep.go)
 		}
 		switch fn.FullName() {
 		case "strings.Split", "strings.SplitN", "github.com/goark/errs.Wrap", "github.com/goark/errs.WithContext", "github.com/goark/errs.Is":
